@@ -467,7 +467,7 @@ pub fn run_pipeline_check(check: &str, tier: Tier, seed: u64) -> i32 {
     let (mut agg, mut wall, mut violations, mut known_hits, mut exit) = run_pipeline_part(check, tier, seed, runs);
     if check == "C10" {
         // C10 (b): concurrent cache-filling readers vs an in-order committer on the production views
-        let comp_runs = std::env::var("VERIF_RUNS").ok().and_then(|s| s.parse().ok()).unwrap_or(if tier == Tier::Quick { 150_000u64 } else { 6_000_000 });
+        let comp_runs = std::env::var("VERIF_RUNS").ok().and_then(|s| s.parse().ok()).unwrap_or(if tier == Tier::Quick { 100_000u64 } else { 5_000_000 });
         let (agg2, wall2, v2, k2, e2) = crate::statecomp::run_batch(tier, seed, comp_runs);
         merge_aggregates(&mut agg, agg2);
         wall += wall2;
